@@ -63,7 +63,9 @@ func vpOptimCheck(mk func() *Problem, n int, holds func(a int) bool, holdsM func
 	// entry point 1: Optimal
 	pb1 := mk()
 	setCost(pb1)
+	vpAMO(pb1)
 	s1 := New(pb1)
+	vpCPSetup(s1, n, nil)
 	vpSteer(s1)
 	res := s1.Optimal(nil, nil)
 	zzvp.Assert(res.Status == Sat || res.Status == Unsat, "Optimal: status is Sat or Unsat")
@@ -83,6 +85,7 @@ func vpOptimCheck(mk func() *Problem, n int, holds func(a int) bool, holdsM func
 	pb2 := mk()
 	setCost(pb2)
 	s2 := New(pb2)
+	vpCPSetup(s2, n, nil)
 	vpSteer(s2)
 	c2 := s2.Minimize()
 	if !sat {
